@@ -56,6 +56,7 @@ import (
 	"github.com/nyaruka/gocommon/uuids"
 	"github.com/nyaruka/goflow/assets"
 	"github.com/nyaruka/goflow/assets/static"
+	"github.com/nyaruka/goflow/contactql"
 	"github.com/nyaruka/goflow/envs"
 	"github.com/nyaruka/goflow/excellent/types"
 	"github.com/nyaruka/goflow/flows"
@@ -355,7 +356,7 @@ type runOut struct {
 	T2      time.Time // done
 }
 
-func runScript(sa flows.SessionAssets, eng flows.Engine, sc *scenario, scr *script, assetsText string) (out *runOut) {
+func runScript(sa flows.SessionAssets, eng flows.Engine, sc *scenario, scr *script, assetsText string, gi int) (out *runOut) {
 	out = &runOut{T0: time.Now()}
 	cn := &canon{assets: assetsText, seen: map[string]string{}}
 	add := func(stage, text string) { out.Stages = append(out.Stages, stageOut{stage, cn.text(text)}) }
@@ -383,6 +384,38 @@ func runScript(sa flows.SessionAssets, eng flows.Engine, sc *scenario, scr *scri
 		return string(sj) + "\n" + string(jsonx.MustMarshal(evs)) + "\n" + string(jsonx.MustMarshal(sprint.Segments()))
 	}
 
+	// resolve every flow of the assets BY NAME (flowAssets.FindByName through SessionAssets.ResolveFlow, as parsing the
+	// contact query `flow = "<name>"` does; and FindByName directly).  Odd goroutines do it first thing, from the cold
+	// cache, while the even ones start their sessions by UUID; the even ones do it after their first sprint.  The
+	// stage text is the same either way and is reported at the same position.
+	byName := func() string {
+		var sb strings.Builder
+		resolver, _ := sa.(contactql.Resolver)
+		for j, name := range sc.flowNames {
+			if (j+gi)%2 == 0 {
+				f, err := sa.Flows().FindByName(name)
+				fmt.Fprintf(&sb, "find %q -> %v %v\n", name, f != nil, err != nil)
+			}
+			if resolver != nil && name != "" {
+				q, err := contactql.ParseQuery(envs.NewBuilder().Build(), fmt.Sprintf("flow = %q", name), resolver)
+				if err != nil {
+					fmt.Fprintf(&sb, "query %q -> ERR\n", name)
+				} else {
+					fmt.Fprintf(&sb, "query %q -> %s\n", name, q.String())
+				}
+			}
+			if (j+gi)%2 == 1 {
+				f, err := sa.Flows().FindByName(name)
+				fmt.Fprintf(&sb, "find %q -> %v %v\n", name, f != nil, err != nil)
+			}
+		}
+		return sb.String()
+	}
+	byNameText := ""
+	if gi%2 == 1 {
+		byNameText = sortLines(byName())
+	}
+
 	// start
 	trigger, err := triggers.ReadTrigger(sa, scr.Trigger, assets.IgnoreMissing)
 	if err != nil {
@@ -397,6 +430,10 @@ func runScript(sa flows.SessionAssets, eng flows.Engine, sc *scenario, scr *scri
 		return
 	}
 	add("start", sprintText(session, sprint))
+	if gi%2 == 0 {
+		byNameText = sortLines(byName())
+	}
+	add("byname", byNameText)
 
 	// marshal -> read -> resume, for every resume of the script
 	for i, rawResume := range scr.Resumes {
@@ -500,6 +537,12 @@ func runScript(sa flows.SessionAssets, eng flows.Engine, sc *scenario, scr *scri
 		add("evaluate", sb.String())
 	}
 	return
+}
+
+func sortLines(s string) string {
+	ls := strings.Split(strings.TrimSuffix(s, "\n"), "\n")
+	sort.Strings(ls)
+	return strings.Join(ls, "\n")
 }
 
 var frameRe = regexp.MustCompile(`(?m)^(\S+)\(.*\)\n\t(\S+):(\d+)`)
@@ -660,7 +703,7 @@ func childMain(specPath string) {
 					if err != nil {
 						panic(fmt.Sprintf("scenario %s: %v", sc.Name, err))
 					}
-					two[rep] = runScript(sa, newEngine(), sc, &sc.Scripts[k], string(sc.Assets))
+					two[rep] = runScript(sa, newEngine(), sc, &sc.Scripts[k], string(sc.Assets), k)
 				}
 				sr := soloResult{Scenario: sc.Name, Script: sc.Scripts[k].Name, Stages: two[0].Stages, Done: true}
 				if i := firstDiff(two[0].Stages, two[1].Stages); i >= 0 {
@@ -707,7 +750,7 @@ func childMain(specPath string) {
 				defer wg.Done()
 				scr := &sc.Scripts[g%len(sc.Scripts)]
 				<-barrier
-				outs[g] = runScript(sa, eng, sc, scr, assetsText)
+				outs[g] = runScript(sa, eng, sc, scr, assetsText, g)
 			}(g)
 		}
 		time.Sleep(2 * time.Millisecond) // let every goroutine reach the barrier
